@@ -41,6 +41,7 @@ type Engine struct {
 	instIfaces map[string]*types.Named
 	verdictDecls []string
 	selfIface  types.Type
+	sentinelSet map[*ssa.Function]bool
 }
 
 // liveIn returns the set of SSA values live on entry to block b (phi results of b included:
